@@ -11,9 +11,12 @@ import (
 	"verifharness/chain"
 	"verifharness/fw"
 
+	"github.com/chain4energy/c4e-chain/x/cfedistributor"
 	disttypes "github.com/chain4energy/c4e-chain/x/cfedistributor/types"
+	"github.com/chain4energy/c4e-chain/x/cfeminter"
 	minttypes "github.com/chain4energy/c4e-chain/x/cfeminter/types"
 	sigtypes "github.com/chain4energy/c4e-chain/x/cfesignature/types"
+	"github.com/chain4energy/c4e-chain/x/cfevesting"
 	vesttypes "github.com/chain4energy/c4e-chain/x/cfevesting/types"
 	sdk "github.com/cosmos/cosmos-sdk/types"
 )
@@ -105,6 +108,10 @@ func keyPrefixLabel(store, key string) string {
 }
 
 func runC12(c *fw.Case) {
+	if c.Index%5 == 4 {
+		c12ShiftProbe(c)
+		return
+	}
 	r, err := newRich(c, false)
 	if err != nil {
 		c.Describe("no-config")
@@ -152,6 +159,9 @@ func runC12(c *fw.Case) {
 			break
 		}
 		c.Count("blocks", 1)
+		// the custom modules' own genesis sections must validate after every block (the full
+		// export -> import round trip below is done at a few heights only)
+		c12SectionsValid(c, r.e.n, b)
 		if c.NViol() > 0 {
 			break
 		}
@@ -391,4 +401,24 @@ func c12CompareBlock(c *fw.Case, r *rich, where string) {
 		c.ViolateD("C12/behaviour-diverged/distributor-states", map[string]interface{}{"original": norm(stA), "restored": norm(stB)}, "%s: distributor states differ between original and restored application", where)
 	}
 	c.Count("block_comparisons", 1)
+}
+
+// c12SectionsValid exports the genesis sections of the custom modules from the current state
+// and runs their validation.
+func c12SectionsValid(c *fw.Case, n *chain.Node, block int) {
+	ctx := n.Ctx()
+	if p := safeCall("ExportGenesis", func() {
+		if err := cfeminter.ExportGenesis(ctx, n.App.CfeminterKeeper).Validate(); err != nil {
+			c.ViolateD("C12/exported-genesis-invalid/cfeminter", map[string]string{"block": fmt.Sprint(block), "state": fmt.Sprintf("%+v", n.App.CfeminterKeeper.GetMinterState(ctx))}, "exported cfeminter genesis fails its own validation: %v", err)
+		}
+		if err := cfedistributor.ExportGenesis(ctx, n.App.CfedistributorKeeper).Validate(); err != nil {
+			c.ViolateD("C12/exported-genesis-invalid/cfedistributor", map[string]string{"block": fmt.Sprint(block)}, "exported cfedistributor genesis fails its own validation: %v", err)
+		}
+		if err := cfevesting.ExportGenesis(ctx, n.App.CfevestingKeeper).Validate(); err != nil {
+			c.ViolateD("C12/exported-genesis-invalid/cfevesting", map[string]string{"block": fmt.Sprint(block)}, "exported cfevesting genesis fails its own validation: %v", err)
+		}
+	}); p != nil {
+		c.ViolateD("C12/export-panic/"+panicKey(p.Stack), p.Stack, "exporting a custom module's genesis panicked at block %d: %s", block, short(p.Value, 200))
+	}
+	c.Count("section_validations", 1)
 }
